@@ -40,6 +40,7 @@ def run(ctx):
     r4 = ctx.rule("R-HASH-TOKENS", "the printer's `#` tokens are dispatched by parse_token to the matching token kind")
     roundtrip.hash_tokens(r4, lexpr)
     null_text(ctx, lexpr)
+    nil_as_false(ctx, lexpr)
     rescan(ctx, lexpr)
     r5 = ctx.rule("R-OCTAL", "octal digit table of the unibyte string printer")
     oc = lexpr.static_bytes("<print::CustomizedFormatter as print::Formatter>::write_bytes::OCTAL_CHARS")
@@ -62,6 +63,8 @@ def null_text(ctx, lexpr):
         r.anchor_missing("print::Formatter::write_null / print::Options")
         return
     fields = opts["variants"][0]["fields"]
+    from .. import common
+    fwd = common.sink_forwarders(lexpr)
     n = 0
     for f in fns:
         if f is None:
@@ -79,7 +82,8 @@ def null_text(ctx, lexpr):
                     if k in o.path and "options" in o.path:
                         return v
                 return None
-            S = sim.Sim([lexpr], hooks={"opaque": opaque}, inline=lambda a, b: b.file.endswith("print.rs") and "write_" in b.path)
+            S = sim.Sim([lexpr], hooks={"opaque": opaque},
+                        inline=lambda a, b: b.file.endswith("print.rs") and ("write_" in b.path or b.path in fwd))
             texts = set()
             for p in S.run(f):
                 if p.end != "return":
@@ -96,6 +100,60 @@ def null_text(ctx, lexpr):
                             "the empty list is printed as %s under %s; it must always be `()` - only the special nil "
                             "value and booleans are folded into nil/t" % (sorted(texts, key=repr), desc), f.loc())
     r.floor("cases", n)
+
+
+def nil_as_false(ctx, lexpr):
+    """NilSyntax::False is documented as "print nil like the boolean false": under every boolean syntax the text
+    written for nil must be the text written for `false`, otherwise nil and false fold differently and the
+    printed text is read back as a different value."""
+    from .. import sim
+    from ..sim import Adt, Bytes
+    r = ctx.rule("R-NIL-FALSE", "with the nil-as-false option, nil is written exactly as `false` is under every boolean syntax")
+    wn = lexpr.fn("<print::CustomizedFormatter as print::Formatter>::write_nil")
+    wb = lexpr.fn("<print::CustomizedFormatter as print::Formatter>::write_bool")
+    nil_ty, bool_ty = lexpr.adts.get("print::NilSyntax"), lexpr.adts.get("print::BoolSyntax")
+    opts = lexpr.adts.get("print::Options")
+    if None in (wn, wb) or not nil_ty or not bool_ty or not opts:
+        r.anchor_missing("CustomizedFormatter::{write_nil, write_bool} / print::{NilSyntax, BoolSyntax, Options}")
+        return
+    from .. import common
+    fwd = common.sink_forwarders(lexpr)
+    fnames = {f["ty"]: f["name"] for f in opts["variants"][0]["fields"]}
+    nil_f, bool_f = fnames.get("print::NilSyntax"), fnames.get("print::BoolSyntax")
+    false_v = [v for v in nil_ty["variants"] if v["name"] == "False"]
+    if not nil_f or not bool_f or not false_v:
+        r.anchor_missing("Options fields of type NilSyntax / BoolSyntax, NilSyntax::False")
+        return
+    n = 0
+    for bv in bool_ty["variants"]:
+        vals = {nil_f: Adt("print::NilSyntax", false_v[0]["idx"], [], "False"),
+                bool_f: Adt("print::BoolSyntax", bv["idx"], [], bv["name"])}
+
+        def opaque(o, vals=vals):
+            for k, v in vals.items():
+                if k in o.path and "options" in o.path:
+                    return v
+            return None
+
+        def text(f, args):
+            S = sim.Sim([lexpr], hooks={"opaque": opaque},
+                        inline=lambda a, b: b.file.endswith("print.rs") and ("write_" in b.path or b.path in fwd))
+            out = set()
+            for p in S.run(f, args=args):
+                if p.end != "return":
+                    continue
+                out.add(tuple(bytes(ev[6][1].b) if isinstance(ev[6][1], Bytes) else None for ev in p.calls("std::io::Write::write_all")))
+            return out
+
+        tn, tb = text(wn, {}), text(wb, {3: 0})
+        n += 1
+        if tn == tb and tn and all(t and None not in t for t in tn):
+            r.ok("BoolSyntax::%s: nil and false are both written as %s" % (bv["name"], sorted(tn)), wn)
+        else:
+            r.violation(wn.path, "nil-false:%s" % bv["name"],
+                        "with NilSyntax::False and BoolSyntax::%s nil is written as %s but false as %s: the two no longer "
+                        "fold to the same token" % (bv["name"], sorted(tn, key=repr), sorted(tb, key=repr)), wn.loc())
+    r.floor("bool-syntaxes", n)
 
 
 def rescan(ctx, lexpr):
